@@ -2433,13 +2433,18 @@ HandleRFBServerMessage(rfbClient* client)
               (!client->format.bigEndian && (maxColor & 0xff000000) == 0)) {
             if (!HandleTRLE24(client, rect.r.x, rect.r.y, rect.r.w, rect.r.h))
               return FALSE;
-          } else if (!client->format.bigEndian && (maxColor & 0xff) == 0) {
-            if (!HandleTRLE24Up(client, rect.r.x, rect.r.y, rect.r.w, rect.r.h))
-              return FALSE;
-          } else if (client->format.bigEndian && (maxColor & 0xff000000) == 0) {
+          } else if ((!client->format.bigEndian && (maxColor & 0xff) == 0) ||
+                     (client->format.bigEndian && (maxColor & 0xff000000) == 0)) {
+            /* the CPIXEL is the last three bytes of the pixel as transmitted: where they
+               go in the framebuffer word depends on the byte order of this machine */
+#ifdef LIBVNCSERVER_WORDS_BIGENDIAN
             if (!HandleTRLE24Down(client, rect.r.x, rect.r.y, rect.r.w,
                                   rect.r.h))
               return FALSE;
+#else
+            if (!HandleTRLE24Up(client, rect.r.x, rect.r.y, rect.r.w, rect.r.h))
+              return FALSE;
+#endif
           } else if (!HandleTRLE32(client, rect.r.x, rect.r.y, rect.r.w,
                                    rect.r.h))
             return FALSE;
@@ -2518,12 +2523,17 @@ HandleRFBServerMessage(rfbClient* client)
 	      (!client->format.bigEndian && (maxColor&0xff000000)==0)) {
 	    if (!HandleZRLE24(client, rect.r.x,rect.r.y,rect.r.w,rect.r.h))
 	      return FALSE;
-	  } else if (!client->format.bigEndian && (maxColor&0xff)==0) {
-	    if (!HandleZRLE24Up(client, rect.r.x,rect.r.y,rect.r.w,rect.r.h))
-	      return FALSE;
-	  } else if (client->format.bigEndian && (maxColor&0xff000000)==0) {
+	  } else if ((!client->format.bigEndian && (maxColor&0xff)==0) ||
+		     (client->format.bigEndian && (maxColor&0xff000000)==0)) {
+	    /* the CPIXEL is the last three bytes of the pixel as transmitted: where they
+	       go in the framebuffer word depends on the byte order of this machine */
+#ifdef LIBVNCSERVER_WORDS_BIGENDIAN
 	    if (!HandleZRLE24Down(client, rect.r.x,rect.r.y,rect.r.w,rect.r.h))
 	      return FALSE;
+#else
+	    if (!HandleZRLE24Up(client, rect.r.x,rect.r.y,rect.r.w,rect.r.h))
+	      return FALSE;
+#endif
 	  } else if (!HandleZRLE32(client, rect.r.x,rect.r.y,rect.r.w,rect.r.h))
 	    return FALSE;
 	  break;
